@@ -424,9 +424,74 @@ pub fn generate(seed: u64, flavor: &str) -> RunSpec {
     } else {
         0
     };
+    // iterator-swarm style: many simultaneously live iterators on one object, dropped in
+    // various orders, then many again (pools / free lists of matcher state have depths)
+    let swarm = !cold_flavor && !storm && rng.chance(6, 100);
     let mut scripts: Vec<Vec<Op>> = Vec::new();
     for t in 0..threads {
         let mut ops: Vec<Op> = Vec::new();
+        if swarm {
+            if t == 0 && setup_ops > 0 {
+                for (s, k) in slot_key.iter().enumerate() {
+                    ops.push(Op::Compile {
+                        slot: s,
+                        key: k.clone(),
+                        drop_first: false,
+                    });
+                }
+            }
+            let slot = rng.below(slots);
+            let fam = fams[slot_fam[slot]];
+            for phase in 0..2 {
+                let k = rng.range(if phase == 0 { 9 } else { 8 }, MAX_ITERS);
+                for it in 0..k {
+                    let input = pick_input(&mut rng, fam, &fams);
+                    ops.push(if rng.chance(50, 100) {
+                        Op::Tokenize { slot, input, it }
+                    } else {
+                        Op::Analyze { slot, input, it }
+                    });
+                    if rng.chance(40, 100) {
+                        ops.push(Op::Next {
+                            it: rng.below(it + 1),
+                            n: 1,
+                        });
+                    }
+                }
+                // a few plain calls while all of them are alive
+                for _ in 0..rng.range(1, 3) {
+                    ops.push(Op::IsMatch {
+                        slot,
+                        input: pick_input(&mut rng, fam, &fams),
+                    });
+                }
+                if phase == 0 {
+                    // drop them all: forward, backward or shuffled
+                    let mut order: Vec<usize> = (0..k).collect();
+                    match rng.below(3) {
+                        0 => {}
+                        1 => order.reverse(),
+                        _ => {
+                            for i in (1..order.len()).rev() {
+                                let j = rng.below(i + 1);
+                                order.swap(i, j);
+                            }
+                        }
+                    }
+                    for it in order {
+                        ops.push(Op::DropIter { it });
+                    }
+                } else {
+                    for it in 0..k {
+                        if rng.chance(60, 100) {
+                            ops.push(Op::Drain { it });
+                        }
+                    }
+                }
+            }
+            scripts.push(ops);
+            continue;
+        }
         if t == 0 && setup_ops > 0 {
             for (s, k) in slot_key.iter().enumerate() {
                 ops.push(Op::Compile {
@@ -448,8 +513,8 @@ pub fn generate(seed: u64, flavor: &str) -> RunSpec {
         }
         let n = rng.range(3, 12);
         // thread-local static knowledge of which iterator slots are (probably) open
-        let mut open: [bool; MAX_ITERS] = [false; MAX_ITERS];
-        let mut open_slot: [usize; MAX_ITERS] = [0; MAX_ITERS];
+        let mut open: [bool; NORMAL_ITERS] = [false; NORMAL_ITERS];
+        let mut open_slot: [usize; NORMAL_ITERS] = [0; NORMAL_ITERS];
         let mut i = 0;
         while i < n && ops.len() < if storm { 24 } else { 16 } {
             i += 1;
@@ -488,7 +553,7 @@ pub fn generate(seed: u64, flavor: &str) -> RunSpec {
                     repl: pick_repl(&mut rng, fam),
                 },
                 36..=46 => {
-                    let it = rng.below(MAX_ITERS);
+                    let it = rng.below(NORMAL_ITERS);
                     open[it] = true;
                     open_slot[it] = slot;
                     Op::Tokenize {
@@ -498,7 +563,7 @@ pub fn generate(seed: u64, flavor: &str) -> RunSpec {
                     }
                 }
                 47..=57 => {
-                    let it = rng.below(MAX_ITERS);
+                    let it = rng.below(NORMAL_ITERS);
                     open[it] = true;
                     open_slot[it] = slot;
                     Op::Analyze {
@@ -508,14 +573,14 @@ pub fn generate(seed: u64, flavor: &str) -> RunSpec {
                     }
                 }
                 58..=77 if any_open => {
-                    let cands: Vec<usize> = (0..MAX_ITERS).filter(|&k| open[k]).collect();
+                    let cands: Vec<usize> = (0..NORMAL_ITERS).filter(|&k| open[k]).collect();
                     Op::Next {
                         it: *rng.pick(&cands),
                         n: rng.range(1, 3),
                     }
                 }
                 78..=84 if any_open => {
-                    let cands: Vec<usize> = (0..MAX_ITERS).filter(|&k| open[k]).collect();
+                    let cands: Vec<usize> = (0..NORMAL_ITERS).filter(|&k| open[k]).collect();
                     let it = *rng.pick(&cands);
                     ops.push(Op::Drain { it });
                     // F4: keep polling after the end
@@ -525,7 +590,7 @@ pub fn generate(seed: u64, flavor: &str) -> RunSpec {
                     }
                 }
                 85..=87 if any_open => {
-                    let cands: Vec<usize> = (0..MAX_ITERS).filter(|&k| open[k]).collect();
+                    let cands: Vec<usize> = (0..NORMAL_ITERS).filter(|&k| open[k]).collect();
                     let it = *rng.pick(&cands);
                     open[it] = false;
                     if rng.chance(20, 100) {
